@@ -27,11 +27,11 @@ NewlyExecuted(pre, post) == { d \in Range(post) : Executed(d) /\ ~(\E p \in Rang
 TotalVotes(ds, d) == LET ids == Range(d.prev) \cup {d.id}
                          f == [i \in ids |-> IF \E x \in Range(ds) : x.id = i THEN Counts(CHOOSE x \in Range(ds) : x.id = i) ELSE Zero]
                      IN NSum(f, ids)
-\* a dispute execution burns either half of its burn amount (the other half is the voters' pot) or all of it
-\* (nobody voted); WHICH of the two applies is decided by the settlement spec (C13), not here
+\* a dispute execution burns half of its burn amount (the other half is the voters' pot), or all of it when nobody
+\* voted in the round that is executed (votes of earlier rounds do not count here: ExecuteVote reads the executed round first, N-10)
 BurnChoices(pre, post) ==
   LET NE == NewlyExecuted(pre, post) IN
-  { NSum([d \in NE |-> IF d \in S THEN d.burn ELSE d.burn // N(2)], NE) : S \in SUBSET NE }
+  { NSum([d \in NE |-> IF IsZero(Counts(d)) THEN d.burn ELSE d.burn // N(2)], NE) }
 
 \* a claimed deposit adds its reported amount to the supply - once: ids already turned into tokens (earlier in the history, or
 \* earlier in the same message) add nothing
